@@ -277,7 +277,10 @@ def main(tier, seed):
         "evaluations": info_a["runs"] + info_b["runs"],
         "distinct_nontrivial": info_a["distinct_signatures"] + info_b["distinct_signatures"],
         "rule": "one evaluation = one simulated run of the real ParallelMap on procsim "
-                "(1-4 calls, 0-40 tasks, 2-6 workers, seeded delays and fault plan). "
+                "(1-4 calls, 0-40 tasks of equal or unequal size, 2-6 workers, seeded delays "
+                "and fault plan; three plans in ten create a second map for another "
+                "equilibrium while the first is alive or after it was deleted, with the "
+                "allocator simulated so that a dead object's identity is reused). "
                 "Non-trivial = at least two results crossed the result queue; distinct = "
                 "distinct (task->worker assignment, completion order) signature over all "
                 "calls of the run. Level B adds whole-grid runs (real mesh generation with "
@@ -291,8 +294,9 @@ def main(tier, seed):
     return rep.finish(
         "exploration", coverage,
         assumptions=[
-            "multiprocessing is a stub (procsim): copy-on-write isolation of module "
-            "globals, pipe-buffer back-pressure, signals and fork failure are not modelled",
+            "multiprocessing is a stub (procsim): per-process copies of module/class state "
+            "are modelled for whole-grid runs only; pipe capacity and reader-lock poisoning "
+            "are modelled; signals other than terminate() and fork failure are not",
             "worker SIGKILL is outside the statement and not injected",
             "a clean batch is evidence about the sampled schedules and fault plans only",
         ],
@@ -301,5 +305,6 @@ def main(tier, seed):
                      "worker_run, __del__)", "dill", "multiprocessing.reduction.ForkingPickler"],
             "stub": ["multiprocessing.Queue", "multiprocessing.Process", "task functions "
                      "(synthetic, level A only; level B runs the real mesh tasks)",
-                     "func_timeout thread+clock (inline / simulated clock)", "uuid/date/git"]}},
+                     "func_timeout thread+clock (inline / simulated clock)", "uuid/date/git",
+                     "id() as seen by hypnotoad's modules (faults.AddressSim)"]}},
     )
